@@ -228,6 +228,12 @@ def evaluate(t, env):
         return int(t[1])
     if op == "real":
         return Fraction(t[1], t[2])
+    if op == "select" and isinstance(evaluate(t[1], env), tuple):
+        return evaluate(t[1], env)[int(evaluate(t[2], env))]
+    if op == "store" and isinstance(evaluate(t[1], env), tuple):
+        a = list(evaluate(t[1], env))
+        a[int(evaluate(t[2], env))] = evaluate(t[3], env)
+        return tuple(a)
     if op == "bv":
         return int(t[1])
     if op == "not":
@@ -345,6 +351,11 @@ def domain(sort, int_range=(-2, 2), usort_card=2):
         return list(range(int_range[0], int_range[1] + 1))
     if is_usort(sort):
         return list(range(usort_card))
+    if is_array(sort):
+        # an array value is the tuple of its elements, indexed by the position of the index value
+        di = domain(sort[1], int_range, usort_card)
+        de = domain(sort[2], int_range, usort_card)
+        return list(itertools.product(de, repeat=len(di)))
     raise ValueError("no finite domain for %r" % (sort,))
 
 
@@ -417,6 +428,9 @@ class GenCtx(object):
         k = sort_key(ret)
         return [(n, s) for n, s in self.symbols.items() if is_fun(s) and sort_key(s[2]) == k]
 
+    def arrays_over_usorts(self):
+        return [(n, s) for n, s in self.symbols.items() if is_array(s) and is_usort(s[2])]
+
     def usort_list(self):
         seen = []
         for s in self.symbols.values():
@@ -456,7 +470,21 @@ def gen_term(tape, sort, depth, ctx):
             kinds += [(3, "intrel"), (1, "inteq")]
         if ctx.usorts and ctx.usort_list():
             kinds += [(2, "ueq")]
+        if ctx.usorts and ctx.arrays_over_usorts():
+            kinds += [(3, "aeq")]
         k = tape.weighted(kinds, "bool.kind")
+        if k == "aeq":
+            # elements of an array over a declared sort compared with each other: the sort occurs
+            # only inside the array type
+            n1, s1 = tape.choice(ctx.arrays_over_usorts(), "aeq.array")
+            same = [(n_, s_) for n_, s_ in ctx.arrays_over_usorts() if sort_key(s_) == sort_key(s1)]
+            n2, _ = tape.choice(same, "aeq.array2")
+            a1, a2 = ["sym", n1, s1], ["sym", n2, s1]
+            if tape.chance(1, 3, "aeq.store"):
+                a2 = ["store", a2, gen_term(tape, s1[1], d, ctx), ["select", a1, gen_term(tape, s1[1], d, ctx)]]
+            if tape.chance(1, 4, "aeq.whole"):
+                return ["=", a1, a2]
+            return ["=", ["select", a1, gen_term(tape, s1[1], d, ctx)], ["select", a2, gen_term(tape, s1[1], d, ctx)]]
         if k == "conn":
             op = tape.choice(BOOL_CONNECTIVES, "bool.conn")
             if op == "not":
